@@ -32,6 +32,15 @@ def _is_mutable_literal(d):
         (isinstance(d, ast.Call) and isinstance(d.func, ast.Name) and d.func.id in ("list", "dict", "set", "OrderedDict", "defaultdict", "Counter", "deque"))
 
 
+def _is_class_ref(e):
+    """an expression that denotes a class object: cls, a capitalised name, type(x), x.__class__"""
+    if isinstance(e, ast.Name):
+        return e.id == "cls" or e.id[:1].isupper()
+    if isinstance(e, ast.Call) and isinstance(e.func, ast.Name) and e.func.id == "type" and len(e.args) == 1:
+        return True
+    return isinstance(e, ast.Attribute) and e.attr == "__class__"
+
+
 def _root():
     import naunet
     return pathlib.Path(naunet.__file__).parent
@@ -115,6 +124,29 @@ def state_frame_items(tier):
                     mutated.add(b.id)
             if isinstance(n, ast.Global):
                 mutated.update(n.names)
+    # F2b: a class attribute (re)bound through the class object inside a function is process-wide state whatever its initial value
+    # (a `None` placeholder filled in later is a cache): cls.X = .., ClassName.X = .., type(self).X = .., self.__class__.X = .., setattr(cls, ..)
+    inv_attrs = {a for (_, _, a) in INVENTORY}
+    class_writes = []
+    for rel, tree in trees:
+        for fn in ast.walk(tree):
+            if not isinstance(fn, (ast.FunctionDef, ast.AsyncFunctionDef, ast.Lambda)):
+                continue
+            for n in ast.walk(fn):
+                tgts = []
+                if isinstance(n, ast.Assign):
+                    tgts = list(n.targets)
+                elif isinstance(n, (ast.AugAssign, ast.AnnAssign)):
+                    tgts = [n.target]
+                elif isinstance(n, ast.Call) and isinstance(n.func, ast.Name) and n.func.id == "setattr" and n.args and _is_class_ref(n.args[0]):
+                    class_writes.append((rel, getattr(fn, "name", "<lambda>"), f"setattr({ast.unparse(n.args[0])}, ..)", None))
+                for t in tgts:
+                    for el in (t.elts if isinstance(t, (ast.Tuple, ast.List)) else [t]):
+                        if isinstance(el, ast.Attribute) and _is_class_ref(el.value):
+                            class_writes.append((rel, getattr(fn, "name", "<lambda>"), ast.unparse(el), el.attr))
+    new_writes = sorted({(r, f, w) for (r, f, w, a) in class_writes if a not in inv_attrs})
+    out.append(_item("frame/class-attributes-rebound-after-import-are-the-inventoried-state", not new_writes,
+                     "; ".join(f"{r}:{f}: {w}" for r, f, w in new_writes)[:600] or f"{len(class_writes)} class-level rebinding sites, all of inventoried attributes"))
     out.append(_item("frame/no-shared-mutable-default-argument", not bad_defaults, "; ".join(bad_defaults)[:600] or "no parameter with a mutable default is stored or mutated"))
     out.append(_item("frame/no-memoising-decorator-on-package-functions", not memo, "; ".join(memo)[:400]))
     # class-level reassignment through cls.X = ... also defines state even if the class body has no literal
